@@ -12,19 +12,12 @@ EXTENDS Policy, Json, Randomization
 CONSTANTS MaxSteps,      \* steps per behaviour
           EvalWeight,    \* copies of the Evaluate disjunct (0: configuration only - read-back runs)
           RbEvery,       \* TRUE: the harness reads everything back after every config step
-          Avoid          \* subset of KFTriggers: input shapes (known findings) NOT to generate
+          Avoid          \* input shapes not to generate (kept for future findings; NoAvoid today)
 
 VARIABLES P, hist, done
 gvars == <<P, hist, done>>
 
-(* input shapes that reach a recorded finding of C10 (findings_proposed/C10-*.md).  The bulk of the
-   behaviours is generated with all of them avoided and must pass the strict invariants; a smaller
-   batch is generated with none avoided and is judged with the finding-specific weakenings. *)
-KFTriggersWb  == {"delasgall", "replace", "delstmt2", "lb", "largeadd", "delpolassigned"}
-KFTriggersApi == KFTriggersWb \cup {"apiorigin", "apicommact"}
-(* over the API a DeleteStatement of the "delstmt2" shape kills the server process: never generated *)
-ApiAlways     == {"delstmt2"}
-NoAvoid       == {}
+NoAvoid == {}     \* the findings whose input shapes used to be excluded here are repaired: nothing is avoided
 
 Pick(S) == {RandomElement(S)}
 Min2(a, b) == IF a < b THEN a ELSE b
@@ -87,8 +80,12 @@ GenAddSet ==
     LET cur  == IF name \in DOMAIN P.dsets THEN P.dsets[name].members ELSE {}
         fam  == IF kind = "prefix" /\ cur # {} /\ ~rep THEN (CHOOSE e \in cur : TRUE).fam ELSE famsel
         pool == IF kind = "prefix" THEN {e \in PrefixEntries : e.fam = fam} ELSE MembersOf(kind)
+        \* prefix-sets get 2..4 entries: the v4 pool is a chain of nested prefixes (/8 > /16 > /24, /17), so
+        \* most sets hold nested entries with DIFFERENT mask-length ranges (a route admitted by a shorter
+        \* covering entry but not by the longest one, and the other way round)
+        k    == IF kind = "prefix" THEN n + 1 ELSE n
     IN /\ ("replace" \in Avoid /\ rep) => ~SetReferenced(P, name)
-       /\ \E ms \in SomeOf(pool, n) :
+       /\ \E ms \in SomeOf(pool, k) :
             Step([op |-> "AddSet", kind |-> kind, name |-> name, members |-> ms, replace |-> rep])
 
 GenDelSet ==
